@@ -1,6 +1,59 @@
-/- C06 — placeholder; theorems follow -/
-import SC.Buffer
+/-
+C06 — objects on one file share one buffered state; the flush keeps all their writes.
+-/
+import SC.Lemmas.Buffer
 namespace SC.Props
-open SC
-theorem C06_placeholder : True := trivial
+open SC SC.B
+
+/-- C06, shared-memory strategy, reads: after a buffered load the loading object's data IS the
+buffered data — every object bound to the file addresses one container, so a write through any
+of them is what a read through any other returns. -/
+theorem C06_memory_objects_share (s : B.State) (oi : Nat) (o : B.Obj) (e : B.Entry)
+    (ho : s.objs[oi]? = some o) (hb : s.isBuffered o = true) (hs : s.strategy = .sharedMemory)
+    (he : s.entry o.res = some e) :
+    (load s oi).2 = none ∧ ((load s oi).1.objs[oi]?).map (·.cell) = some e.cell :=
+  load_mem_shares s oi o e ho hb hs he
+
+/-- C06, serialized strategy, reads: a buffered load merges the buffered contents — written by
+whichever object — into the loading object. -/
+theorem C06_serialized_load_merges_entry (s : B.State) (oi : Nat) (o : B.Obj) (e : B.Entry)
+    (ho : s.objs[oi]? = some o) (hb : s.isBuffered o = true) (hs : s.strategy = .serialized)
+    (he : s.entry o.res = some e) (hcap : ¬ s.size > s.capacity) :
+    load s oi = mergeInto (s.register oi) oi o e.contents :=
+  load_ser_merges_entry s oi o e ho hb hs he hcap
+
+/-- C06, flush, shared-memory strategy: what is written is the buffered data, for EVERY object
+`oi` that performs the flush — also one that only read, or never touched the buffer, and
+whatever its own memory holds. -/
+theorem C06_memory_flush_writes_buffered (s : B.State) (oi : Nat) (o : B.Obj) (force : Bool) (e : B.Entry)
+    (hb : (!(s.isBuffered o) || force) = true) (he : s.entry o.res = some e)
+    (hm : e.modified = true) (hc : e.fmeta = s.stat o.res) :
+    (flushMem s oi o force).1.store o.res = some (s.cellData e.cell).toBase :=
+  (flushMem_writes_buffered s oi o force e hb he hm hc).2
+
+/-- C06, flush, serialized strategy: whether a flush writes is decided from the buffered
+contents against the hash taken when the file entered the buffer — not from the data of the
+object that happens to flush: contents = hash → nothing written (first clause); contents ≠ hash →
+the buffered contents are written (second clause), for every flushing object. -/
+theorem C06_serialized_flush_decides_from_entry (s : B.State) (oi : Nat) (o : B.Obj) (force : Bool)
+    (e : B.Entry) (hb : (!(s.isBuffered o) || force) = true) (he : s.entry o.res = some e) :
+    (Tr.same e.contents e.hash = true →
+      (flushSer s oi o force).1.stores = s.stores ∧ (flushSer s oi o force).2 = none) ∧
+    (Tr.same e.contents e.hash = false → e.fmeta = s.stat o.res →
+      (mergeInto s oi o e.contents).2 = none →
+      (flushSer s oi o force).1.store o.res = some ((mergeInto s oi o e.contents).1.root o).toBase) :=
+  ⟨fun hm => ⟨(flushSer_readonly s oi o force e he hm).2.1, (flushSer_readonly s oi o force e he hm).1⟩,
+   fun hm hc hmerge => (flushSer_writes s oi o force e hb he hm hc hmerge).2.1⟩
+
+/-- the scenario that used to lose a write (reader flushed first), on the machine: two objects on
+one file in one backend-wide context; o1 only reads and is popped first; the file still gets w. -/
+example :
+    let fam : Fam := ⟨[.requireStringKey, .jsonFormat], [.requireStringKey, .jsonFormat]⟩
+    let s := run (B.State.init fam .sharedMemory [])
+      [.openObj true 0 none, .openObj true 0 none, .enterCls none,
+       .call (.root 0) (.dRead (.get (.s "k") (.leaf .null))), .call (.root 1) (.dRead (.get (.s "k") (.leaf .null))),
+       .call (.root 0) (.dSetitem (.s "w") (.leaf (.int 1))), .exitCls]
+    (match s.store 0 with | some d => Tr.same d (.dict () [(.s "w", .leaf (.int 1))] : J) | none => false) = true := by
+  decide
+
 end SC.Props
